@@ -137,3 +137,436 @@ fn schedule_at_is_empty_outside_supported_range_one_rule() {
     vpost!("C08.schedule_at.closed_before_1900_and_from_10000_on", s.is_empty());
     vcover!("schedule_at_outside_one_rule.year_10000", d.year() == 10000);
 }
+
+// ---- lean variants: every Schedule operation that is not the subject of the obligation is a contract model ----------
+
+/// a rule contributes nothing, or a whole-day schedule of the rule's kind (no comments: keeps `Arc<str>` glue away)
+#[cfg(kani)]
+pub(crate) fn rule_schedule_lean_model<L: Localize>(r: &RuleSequence, _date: NaiveDate, _ctx: &Context<L>) -> Option<Schedule> {
+    if kani::any() {
+        None
+    } else {
+        Some(Schedule { inner: vec![TimeRange::new(ExtendedTime::MIDNIGHT_00..ExtendedTime::MIDNIGHT_24, r.kind, UniqueSortedVec::new())] })
+    }
+}
+
+/// contract model of `Schedule::addition` that is exact about emptiness (the only thing the guard obligations read):
+/// the sum is empty iff both operands are
+pub(crate) fn addition_emptiness_model(a: Schedule, b: Schedule) -> Schedule {
+    if b.inner.is_empty() {
+        core::mem::forget(b);
+        a
+    } else {
+        core::mem::forget(a);
+        b
+    }
+}
+
+//@H props=C08,C17,C04 tier=off kind=bounded cap=3600 mem=heavy bound="expressions of 1 rule (any operator/kind, empty day selector; the rule's contribution is an arbitrary contract model)" domain="every date chrono can represent outside 1900-01-01..9999-12-31"
+#[cfg_attr(kani, kani::proof)]
+#[cfg_attr(kani, kani::unwind(3))]
+#[cfg_attr(kani, kani::stub(rule_sequence_schedule_at, rule_schedule_lean_model))]
+#[cfg_attr(kani, kani::stub(Schedule::addition, addition_emptiness_model))]
+#[cfg_attr(verif_replay, test)]
+fn schedule_at_guard_one_rule_lean() {
+    let oh = one_rule();
+    let d = any_chrono_date();
+    nd::assume(d < date_start() || d >= date_end());
+    let s = oh.schedule_at(d);
+    vpost!("C08.schedule_at.closed_before_1900_and_from_10000_on", s.is_empty());
+    vcover!("schedule_at_guard_one_rule.year_10000", d.year() == 10000);
+}
+
+// ---- rule_sequence_schedule_at: today's spans plus yesterday's spill (opening_hours.rs:342-362) --------------------------
+
+/// Contract model of `Schedule::addition` for operands of at most one range each (comment-free):
+/// the result is well-formed and every minute shows the kind of `b` where `b` covers it, else of `a`.
+/// The model is checked against that contract by `addition_small_model_meets_the_addition_contract`; that the real
+/// `addition` meets it is discharged only for an empty operand (C14) - for two non-empty operands it is assumed.
+pub(crate) fn addition_small_model(a: Schedule, b: Schedule) -> Schedule {
+    use std::cmp::{max, min};
+    if b.inner.is_empty() {
+        core::mem::forget(b);
+        return a;
+    }
+    if a.inner.is_empty() {
+        core::mem::forget(a);
+        return b;
+    }
+    let (a_s, a_e, a_k) = (a.inner[0].range.start, a.inner[0].range.end, a.inner[0].kind);
+    let (b_s, b_e, b_k) = (b.inner[0].range.start, b.inner[0].range.end, b.inner[0].kind);
+    core::mem::forget(a);
+    core::mem::forget(b);
+    let mk = |s: ExtendedTime, e: ExtendedTime, k: RuleKind| TimeRange::new(s..e, k, UniqueSortedVec::new());
+    let left = a_s < min(a_e, b_s);
+    let right = max(a_s, b_e) < a_e;
+    let inner = match (left, right) {
+        (false, false) => vec![mk(b_s, b_e, b_k)],
+        (true, false) => vec![mk(a_s, min(a_e, b_s), a_k), mk(b_s, b_e, b_k)],
+        (false, true) => vec![mk(b_s, b_e, b_k), mk(max(a_s, b_e), a_e, a_k)],
+        (true, true) => vec![mk(a_s, b_s, a_k), mk(b_s, b_e, b_k), mk(b_e, a_e, a_k)],
+    };
+    Schedule { inner }
+}
+
+fn any_ext_time(max: u16) -> ExtendedTime {
+    let m = nd::u16();
+    nd::assume(m <= max);
+    ExtendedTime::from_mins_from_midnight(m).unwrap()
+}
+
+fn any_small_schedule() -> (Schedule, Option<(ExtendedTime, ExtendedTime, RuleKind)>) {
+    let (s, e, k) = (any_ext_time(48 * 60), any_ext_time(48 * 60), any_kind());
+    if nd::bool() {
+        nd::assume(s < e);
+        (Schedule { inner: vec![TimeRange::new(s..e, k, UniqueSortedVec::new())] }, Some((s, e, k)))
+    } else {
+        (Schedule::default(), None)
+    }
+}
+
+fn small_kind_at(r: &Option<(ExtendedTime, ExtendedTime, RuleKind)>, q: ExtendedTime) -> Option<RuleKind> {
+    match r {
+        Some((s, e, k)) if *s <= q && q < *e => Some(*k),
+        _ => None,
+    }
+}
+
+//@H props=C01,C14 tier=quick kind=bounded cap=900 mem=medium bound="operands of at most 1 range each" domain="bounds anywhere in 00:00..=48:00, all kinds, query minute 00:00..=48:00"
+#[cfg_attr(kani, kani::proof)]
+#[cfg_attr(kani, kani::unwind(5))]
+#[cfg_attr(verif_replay, test)]
+fn addition_small_model_meets_the_addition_contract() {
+    let (a, ra) = any_small_schedule();
+    let (b, rb) = any_small_schedule();
+    let q = any_ext_time(48 * 60);
+    let r = addition_small_model(a, b);
+    vpost!("MODEL.addition_small.result_ranges_nonempty_increasing_disjoint", crate::schedule::verif_schedule::wf(&r));
+    vpost!(
+        "MODEL.addition_small.most_recently_added_wins_earlier_shows_through_elsewhere",
+        crate::schedule::verif_schedule::kind_at(&r, q) == small_kind_at(&rb, q).or(small_kind_at(&ra, q))
+    );
+    vcover!("addition_small_model.three_pieces", r.inner.len() == 3);
+    core::mem::forget(r);
+}
+
+/// a rule with one fixed time span and a day selector that matches exactly the days of one (symbolic) year
+fn rule_day_schedule_body(with_year_selector: bool) {
+    use opening_hours_syntax::rules::time::{TimeSelector, TimeSpan};
+    let (s, e) = (any_ext_time(24 * 60), any_ext_time(48 * 60));
+    let kind = any_kind();
+    let y = nd::u16();
+    nd::assume(1900 <= y && y <= 9999);
+    let day_selector = if with_year_selector {
+        ds::DaySelector { year: vec![ds::YearRange { range: ds::Year(y)..=ds::Year(y), step: 1 }], ..Default::default() }
+    } else {
+        ds::DaySelector::default()
+    };
+    let rule = RuleSequence {
+        day_selector,
+        time_selector: TimeSelector { time: vec![TimeSpan::fixed_range(s, e)] },
+        kind,
+        operator: RuleOperator::Normal,
+        comments: Default::default(),
+    };
+    let ctx = Context::default();
+    let d = crate::filter::date_filter::verif_date_filter::any_date();
+    let q = any_ext_time(24 * 60 - 1);
+    // the statement: the span [s, e) (e + 24:00 when e <= s) of a day the rule applies on covers its minutes of that day
+    // and, past 24:00, the early minutes of the following day
+    let end = if s < e { e.mins_from_midnight() } else { e.mins_from_midnight() + 24 * 60 };
+    let end = if end > 48 * 60 { 48 * 60 } else { end };
+    let applies_today = !with_year_selector || d.year() == y as i32;
+    let applies_yesterday = match d.pred_opt() {
+        Some(p) => !with_year_selector || p.year() == y as i32,
+        None => false,
+    };
+    let qm = q.mins_from_midnight();
+    let open_from_today = applies_today && s.mins_from_midnight() <= qm && qm < end;
+    let open_from_yesterday = applies_yesterday && s.mins_from_midnight() <= qm + 24 * 60 && qm + 24 * 60 < end;
+    let got = rule_sequence_schedule_at(&rule, d, &ctx);
+    vpost!("C01.rule_day_schedule.none_iff_the_rule_applies_neither_today_nor_yesterday", got.is_some() == (applies_today || applies_yesterday));
+    let got_kind = got.as_ref().and_then(|sch| crate::schedule::verif_schedule::kind_at(sch, q));
+    vpost!(
+        "C01.rule_day_schedule.minute_has_the_rule_kind_iff_a_span_of_today_or_a_span_passing_midnight_of_yesterday_covers_it",
+        got_kind == if open_from_today || open_from_yesterday { Some(kind) } else { None }
+    );
+    vpost!("C01.rule_day_schedule.ranges_nonempty_increasing_disjoint_within_the_day", got.as_ref().map_or(true, |sch| {
+        crate::schedule::verif_schedule::wf(sch) && sch.inner.iter().all(|tr| tr.range.end <= ExtendedTime::MIDNIGHT_24)
+    }));
+    vcover!("rule_day_schedule.spill_only", !open_from_today && open_from_yesterday);
+    vcover!("rule_day_schedule.both", got.as_ref().map_or(false, |sch| sch.inner.len() == 2));
+    vcover!("rule_day_schedule.applies_yesterday_only", !with_year_selector || (!applies_today && applies_yesterday));
+    core::mem::forget(got);
+}
+
+//@H props=C01,C04 tier=thorough kind=bounded cap=3600 mem=heavy bound="rule with 1 fixed time span and the empty day selector; Schedule::addition replaced by its contract model" domain="start 00:00..=24:00, end 00:00..=48:00, all kinds, all dates, query minute 00:00..23:59"
+#[cfg_attr(kani, kani::proof)]
+#[cfg_attr(kani, kani::unwind(4))]
+#[cfg_attr(kani, kani::stub(core::slice::sort::unstable::sort, crate::schedule::verif_schedule::sort_model))]
+#[cfg_attr(kani, kani::stub(opening_hours_syntax::sorted_vec::UniqueSortedVec::union, crate::schedule::verif_schedule::union_left_model))]
+#[cfg_attr(kani, kani::stub(Schedule::addition, addition_small_model))]
+#[cfg_attr(kani, kani::stub(crate::filter::date_filter::valid_ymd_before, unreached_ymd_model))]
+#[cfg_attr(kani, kani::stub(crate::filter::date_filter::valid_ymd_after, unreached_ymd_model))]
+#[cfg_attr(kani, kani::stub(crate::utils::dates::easter, unreached_easter_model))]
+#[cfg_attr(kani, kani::stub(crate::utils::dates::count_days_in_month, unreached_days_in_month_model))]
+#[cfg_attr(kani, kani::stub(opening_hours_syntax::rules::day::DateOffset::apply, unreached_offset_model))]
+#[cfg_attr(kani, kani::stub(compact_calendar::CompactCalendar::contains, unreached_contains_model))]
+#[cfg_attr(kani, kani::stub(compact_calendar::CompactCalendar::first_after, unreached_first_after_model))]
+#[cfg_attr(verif_replay, test)]
+fn rule_day_schedule_every_day() {
+    rule_day_schedule_body(false)
+}
+
+//@H props=C01,C04 tier=thorough kind=bounded cap=3600 mem=heavy bound="rule with 1 fixed time span and a one-year day selector; Schedule::addition replaced by its contract model" domain="start 00:00..=24:00, end 00:00..=48:00, all kinds, all years, all dates, query minute 00:00..23:59"
+#[cfg_attr(kani, kani::proof)]
+#[cfg_attr(kani, kani::unwind(4))]
+#[cfg_attr(kani, kani::stub(core::slice::sort::unstable::sort, crate::schedule::verif_schedule::sort_model))]
+#[cfg_attr(kani, kani::stub(opening_hours_syntax::sorted_vec::UniqueSortedVec::union, crate::schedule::verif_schedule::union_left_model))]
+#[cfg_attr(kani, kani::stub(Schedule::addition, addition_small_model))]
+#[cfg_attr(kani, kani::stub(crate::filter::date_filter::valid_ymd_before, unreached_ymd_model))]
+#[cfg_attr(kani, kani::stub(crate::filter::date_filter::valid_ymd_after, unreached_ymd_model))]
+#[cfg_attr(kani, kani::stub(crate::utils::dates::easter, unreached_easter_model))]
+#[cfg_attr(kani, kani::stub(crate::utils::dates::count_days_in_month, unreached_days_in_month_model))]
+#[cfg_attr(kani, kani::stub(opening_hours_syntax::rules::day::DateOffset::apply, unreached_offset_model))]
+#[cfg_attr(kani, kani::stub(compact_calendar::CompactCalendar::contains, unreached_contains_model))]
+#[cfg_attr(kani, kani::stub(compact_calendar::CompactCalendar::first_after, unreached_first_after_model))]
+#[cfg_attr(verif_replay, test)]
+fn rule_day_schedule_one_year() {
+    rule_day_schedule_body(true)
+}
+
+// ---- leaf models for harnesses whose day selectors are empty ---------------------------------------------------------------
+//
+// CBMC does not propagate "the selector vectors behind the `Arc` are empty" during symbolic execution and would unfold all
+// of date_filter.rs on dead paths.  The chrono-heavy leaves are therefore replaced by models that carry an obligation
+// stating they are never reached; the solver discharges it (the paths are infeasible), so nothing is assumed about them.
+
+macro_rules! unreached {
+    () => {
+        vpost!("HARNESS.selector_leaf_code_is_not_reached_when_every_day_selector_is_empty", false)
+    };
+}
+
+pub(crate) fn unreached_ymd_model(_year: i32, _month: u32, _day: u32) -> NaiveDate {
+    unreached!();
+    DATE_END.date()
+}
+
+pub(crate) fn unreached_easter_model(_year: i32) -> Option<NaiveDate> {
+    unreached!();
+    None
+}
+
+pub(crate) fn unreached_days_in_month_model(_date: NaiveDate) -> u8 {
+    unreached!();
+    30
+}
+
+pub(crate) fn unreached_offset_model(_o: &ds::DateOffset, date: NaiveDate) -> NaiveDate {
+    unreached!();
+    date
+}
+
+pub(crate) fn unreached_contains_model(_c: &compact_calendar::CompactCalendar, _d: NaiveDate) -> bool {
+    unreached!();
+    false
+}
+
+pub(crate) fn unreached_first_after_model(_c: &compact_calendar::CompactCalendar, _d: NaiveDate) -> Option<NaiveDate> {
+    unreached!();
+    None
+}
+
+//@H props=C08,C17,C04 tier=quick kind=bounded cap=1200 mem=light bound="expressions of 1 rule (any operator/kind, empty day selector; the rule's contribution is an arbitrary contract model)" domain="every date chrono can represent outside 1900-01-01..9999-12-31"
+#[cfg_attr(kani, kani::proof)]
+#[cfg_attr(kani, kani::unwind(3))]
+#[cfg_attr(kani, kani::stub(rule_sequence_schedule_at, rule_schedule_lean_model))]
+#[cfg_attr(kani, kani::stub(Schedule::addition, addition_emptiness_model))]
+#[cfg_attr(kani, kani::stub(crate::filter::date_filter::valid_ymd_before, unreached_ymd_model))]
+#[cfg_attr(kani, kani::stub(crate::filter::date_filter::valid_ymd_after, unreached_ymd_model))]
+#[cfg_attr(kani, kani::stub(crate::utils::dates::easter, unreached_easter_model))]
+#[cfg_attr(kani, kani::stub(crate::utils::dates::count_days_in_month, unreached_days_in_month_model))]
+#[cfg_attr(kani, kani::stub(opening_hours_syntax::rules::day::DateOffset::apply, unreached_offset_model))]
+#[cfg_attr(kani, kani::stub(compact_calendar::CompactCalendar::contains, unreached_contains_model))]
+#[cfg_attr(kani, kani::stub(compact_calendar::CompactCalendar::first_after, unreached_first_after_model))]
+#[cfg_attr(verif_replay, test)]
+fn schedule_at_guard_one_rule_leaves_stubbed() {
+    let oh = one_rule();
+    let d = any_chrono_date();
+    nd::assume(d < date_start() || d >= date_end());
+    let s = oh.schedule_at(d);
+    vpost!("C08.schedule_at.closed_before_1900_and_from_10000_on", s.is_empty());
+    vcover!("schedule_at_guard_one_rule_stubbed.year_10000", d.year() == 10000);
+}
+
+// ---- U-comb: the rule-combination loop of `schedule_at` against the contracts of its callees ------------------------------
+//
+// Statement (C01): "a later normal rule replaces earlier rules on the days it applies, additional rules and closed rules
+// overlay, fallback rules apply only on days nothing else covered".
+//
+// The real loop runs over real `RuleSequence` values whose day selector is a one-year range (so whether rule i applies on
+// the day is the symbolic bit `year(d) == y_i`, decided by the real `DaySelector::filter` / `YearRange::filter`).  What a
+// rule contributes is a *contract model* of `rule_sequence_schedule_at`: nothing when the rule does not apply, otherwise a
+// whole-day schedule of the rule's kind or the empty schedule (a time selector without spans for that day), chosen per
+// rule by the harness.  `Schedule::addition` is replaced by its contract restricted to such operands (the later operand
+// wins where it covers).  Bound: no spill-over from the previous day, whole-day contributions.
+
+pub(crate) const MAX_RULES: usize = 3;
+static mut COMB_RULES: *const RuleSequence = core::ptr::null();
+/// per rule: year it applies in, whether it contributes a whole-day range when it applies
+static mut COMB_TAB: [(u16, bool); MAX_RULES] = [(0, false); MAX_RULES];
+
+pub(crate) fn comb_rule_model<L: Localize>(r: &RuleSequence, date: NaiveDate, _ctx: &Context<L>) -> Option<Schedule> {
+    let mut i = 0;
+    while i < MAX_RULES {
+        if core::ptr::eq(r, unsafe { COMB_RULES.add(i) }) {
+            let (y, whole_day) = unsafe { COMB_TAB[i] };
+            if date.year() != y as i32 {
+                return None;
+            }
+            return Some(if whole_day {
+                Schedule { inner: vec![TimeRange::new(ExtendedTime::MIDNIGHT_00..ExtendedTime::MIDNIGHT_24, r.kind, UniqueSortedVec::new())] }
+            } else {
+                Schedule::default()
+            });
+        }
+        i += 1;
+    }
+    vpost!("HARNESS.comb_rule_model_is_only_asked_about_rules_of_the_expression", false);
+    None
+}
+
+/// `Schedule::addition` restricted to whole-day or empty operands: the later operand wins where it covers
+pub(crate) fn addition_whole_day_model(a: Schedule, b: Schedule) -> Schedule {
+    if b.inner.is_empty() {
+        core::mem::forget(b);
+        a
+    } else {
+        core::mem::forget(a);
+        b
+    }
+}
+
+/// what the day looks like so far: no schedule at all, an empty schedule, or one kind all day long
+#[derive(Clone, Copy, PartialEq, Eq)]
+enum DayView {
+    Nothing,
+    Empty,
+    WholeDay(RuleKind),
+}
+
+fn comb_body<const N: usize>() {
+    let d = crate::filter::date_filter::verif_date_filter::any_date();
+    let mut rules = Vec::new();
+    let mut ops = [(RuleOperator::Normal, RuleKind::Open, false, false); N];
+    let mut i = 0;
+    while i < N {
+        let (op, kind) = (any_operator(), any_kind());
+        let y = nd::u16();
+        nd::assume(1900 <= y && y <= 9999);
+        let whole_day = nd::bool();
+        unsafe { COMB_TAB[i] = (y, whole_day) };
+        ops[i] = (op, kind, d.year() == y as i32, whole_day);
+        rules.push(RuleSequence {
+            day_selector: ds::DaySelector { year: vec![ds::YearRange { range: ds::Year(y)..=ds::Year(y), step: 1 }], ..Default::default() },
+            time_selector: Default::default(),
+            kind,
+            operator: op,
+            comments: Default::default(),
+        });
+        i += 1;
+    }
+    // ---- the statement, as a fold over (applies, contribution) pairs
+    let mut covered = false;
+    let mut view = DayView::Nothing;
+    let mut ambiguous = false;
+    let mut i = 0;
+    while i < N {
+        let (op, kind, applies, whole_day) = ops[i];
+        let contribution = if whole_day { DayView::WholeDay(kind) } else { DayView::Empty };
+        match (op, kind) {
+            (RuleOperator::Normal, RuleKind::Open | RuleKind::Unknown) => {
+                if applies {
+                    view = contribution; // replaces earlier rules on the days it applies
+                    covered = true;
+                }
+            }
+            (RuleOperator::Additional, _) | (RuleOperator::Normal, RuleKind::Closed) => {
+                if applies {
+                    // overlays: wins where it covers, earlier rules show through elsewhere
+                    view = if whole_day || view == DayView::Nothing { contribution } else { view };
+                    covered = true;
+                }
+            }
+            (RuleOperator::Fallback, _) => {
+                // applies only on days nothing else covered.  Whether a day on which earlier rules applied but left
+                // closed all day counts as "covered" is not settled by the statement: left out of the obligation.
+                if covered && !matches!(view, DayView::WholeDay(RuleKind::Open | RuleKind::Unknown)) {
+                    ambiguous = true;
+                }
+                if !covered {
+                    view = if applies { contribution } else { DayView::Nothing };
+                    covered = applies;
+                }
+            }
+        }
+        i += 1;
+    }
+    nd::assume(!ambiguous);
+    let oh = OpeningHours { expr: Arc::new(OpeningHoursExpression { rules }), ctx: Context::default() };
+    unsafe { COMB_RULES = oh.expr.rules.as_ptr() };
+    let q = any_ext_time(24 * 60 - 1);
+    let got = oh.schedule_at(d);
+    let got_kind = crate::schedule::verif_schedule::kind_at(&got, q);
+    match view {
+        DayView::WholeDay(k) => {
+            vpost!("C01.rule_combination.later_normal_replaces_additional_and_closed_overlay_fallback_only_if_uncovered", got_kind == Some(k));
+        }
+        _ => {
+            vpost!("C01.rule_combination.no_applicable_rule_or_no_span_means_an_empty_schedule", got.is_empty());
+        }
+    }
+    vpost!("C17.schedule_at.no_comments_when_no_rule_has_any", got.inner.iter().all(|tr| tr.comments.is_empty()));
+    vcover!("comb.fallback_applies", N < 2 || (ops[N - 1].0 == RuleOperator::Fallback && ops[N - 1].2 && !ops[0].2 && view != DayView::Nothing));
+    vcover!("comb.fallback_skipped", N < 2 || (ops[N - 1].0 == RuleOperator::Fallback && ops[N - 1].2 && ops[0].2 && view == DayView::WholeDay(ops[0].1)));
+    vcover!("comb.normal_replaces", N < 2 || (ops[0].2 && ops[1].2 && ops[1].0 == RuleOperator::Normal && ops[0].1 != ops[1].1 && ops[0].3 && ops[1].3));
+    vcover!("comb.additional_overlays", N < 2 || (ops[0].2 && ops[1].2 && ops[1].0 == RuleOperator::Additional && ops[0].3 && !ops[1].3));
+    vcover!("comb.non_matching_normal_rule_between", N < 3 || (ops[0].2 && !ops[1].2 && ops[1].0 == RuleOperator::Normal && ops[2].0 == RuleOperator::Fallback && ops[2].2));
+    core::mem::forget(got);
+}
+
+
+//@H props=C01,C17,C04 tier=thorough kind=bounded cap=3600 mem=medium bound="expressions of 2 rules (all operators x kinds; one-year day selectors; whole-day or empty contributions, no spill-over from the previous day); callees replaced by contract models" domain="all dates 1900..9999, all rule years, query minute 00:00..23:59"
+#[cfg_attr(kani, kani::proof)]
+#[cfg_attr(kani, kani::unwind(4))]
+#[cfg_attr(kani, kani::stub(rule_sequence_schedule_at, comb_rule_model))]
+#[cfg_attr(kani, kani::stub(Schedule::addition, addition_whole_day_model))]
+#[cfg_attr(kani, kani::stub(crate::filter::date_filter::valid_ymd_before, unreached_ymd_model))]
+#[cfg_attr(kani, kani::stub(crate::filter::date_filter::valid_ymd_after, unreached_ymd_model))]
+#[cfg_attr(kani, kani::stub(crate::utils::dates::easter, unreached_easter_model))]
+#[cfg_attr(kani, kani::stub(crate::utils::dates::count_days_in_month, unreached_days_in_month_model))]
+#[cfg_attr(kani, kani::stub(opening_hours_syntax::rules::day::DateOffset::apply, unreached_offset_model))]
+#[cfg_attr(kani, kani::stub(compact_calendar::CompactCalendar::contains, unreached_contains_model))]
+#[cfg_attr(kani, kani::stub(compact_calendar::CompactCalendar::first_after, unreached_first_after_model))]
+#[cfg_attr(verif_replay, test)]
+fn rule_combination_2() {
+    comb_body::<2>()
+}
+
+//@H props=C01,C17,C04 tier=thorough kind=bounded cap=3600 mem=medium bound="expressions of 3 rules (all operators x kinds; one-year day selectors; whole-day or empty contributions, no spill-over from the previous day); callees replaced by contract models" domain="all dates 1900..9999, all rule years, query minute 00:00..23:59"
+#[cfg_attr(kani, kani::proof)]
+#[cfg_attr(kani, kani::unwind(5))]
+#[cfg_attr(kani, kani::stub(rule_sequence_schedule_at, comb_rule_model))]
+#[cfg_attr(kani, kani::stub(Schedule::addition, addition_whole_day_model))]
+#[cfg_attr(kani, kani::stub(crate::filter::date_filter::valid_ymd_before, unreached_ymd_model))]
+#[cfg_attr(kani, kani::stub(crate::filter::date_filter::valid_ymd_after, unreached_ymd_model))]
+#[cfg_attr(kani, kani::stub(crate::utils::dates::easter, unreached_easter_model))]
+#[cfg_attr(kani, kani::stub(crate::utils::dates::count_days_in_month, unreached_days_in_month_model))]
+#[cfg_attr(kani, kani::stub(opening_hours_syntax::rules::day::DateOffset::apply, unreached_offset_model))]
+#[cfg_attr(kani, kani::stub(compact_calendar::CompactCalendar::contains, unreached_contains_model))]
+#[cfg_attr(kani, kani::stub(compact_calendar::CompactCalendar::first_after, unreached_first_after_model))]
+#[cfg_attr(verif_replay, test)]
+fn rule_combination_3() {
+    comb_body::<3>()
+}
